@@ -52,7 +52,11 @@
    the log of a negative number or failed an allocation would; the answers must not depend on it.  (Seeded changes C02-9, C06-9,
    C07-9, C12-9, C15-10, C16-7: "errno == ERANGE" tests without clearing errno first.) */
 #include <errno.h>
-static void xv_poison_errno(void) { static unsigned k; static const int v[4] = {ERANGE, EDOM, ENOMEM, 0}; errno = v[k++ & 3]; }
+#include <fenv.h>
+static void xv_poison_errno(void) { static unsigned k; static const int v[4] = {ERANGE, EDOM, ENOMEM, 0};
+  /* likewise the floating-point exception flags an application may have raised (seeded change C05-11: fetestexcept without feclearexcept) */
+  feclearexcept(FE_ALL_EXCEPT); if ((k >> 2) & 1) feraiseexcept(FE_DIVBYZERO | FE_INVALID | FE_OVERFLOW);
+  errno = v[k++ & 3]; }
 
 XRL_EXTERN void Crystal_F_H_StructureFactor2(Crystal_Struct* crystal, double energy, int i_miller, int j_miller, int k_miller, double debye_factor, double rel_angle, xrlComplex* result, xrl_error **error);
 XRL_EXTERN void Crystal_F_H_StructureFactor_Partial2(Crystal_Struct* crystal, double energy, int i_miller, int j_miller, int k_miller, double debye_factor, double rel_angle, int f0_flag, int f_prime_flag, int f_prime2_flag, xrlComplex* result, xrl_error **error);
